@@ -39,6 +39,7 @@ LEAFRULES = {
 
 
 def items(i, n, tier):
+    small = tier == "small"  # n=3: the reduced alphabet (no second common / multi-token leaves, no 'X rule then common rule' items)
     out = [REF("R"), REF("V"), REF("INT"), L("a")]
     if tier == "thorough":
         out += [REF("S"), REF("T")]
@@ -47,6 +48,18 @@ def items(i, n, tier):
     for j in range(0, i + 1):
         out.append(SEQ(L("("), REF("X%d" % j), L(")")))
     out += [SEQ(REF("V"), REF("R")), SEQ(REF("T"), REF("V"))]
+    if small:
+        if i == n - 1:
+            # only in the last rule: a guarded reference back to an earlier rule followed by a common rule
+            for j in range(0, i):
+                out.append(SEQ(L("("), REF("X%d" % j), L(")"), REF("R")))
+        return out
+    # a reference to another X rule (its kind may still be unknown when this rule is first analysed) followed by a common rule
+    for leaf in (["R", "S"] if tier == "thorough" else ["R"]):
+        for j in range(i + 1, n):
+            out.append(SEQ(REF("X%d" % j), REF(leaf)))
+        for j in range(0, i + 1):
+            out.append(SEQ(L("("), REF("X%d" % j), L(")"), REF(leaf)))
     if tier == "thorough":
         out += [SEQ(REF("R"), REF("V")), SEQ(REF("R"), REF("S"))]
     return out
@@ -61,8 +74,19 @@ def rule_bodies(i, n, tier):
         yield ALT(x, y)
 
 
-def grammars(n, tier):
-    for bodies in itertools.product(*[list(rule_bodies(i, n, tier)) for i in range(n)]):
+def chain_slice():
+    """quick-tier slice of the 3-rule space: X0 and X1 are two-way choices containing the forward reference to the next rule
+    (a chain X0 -> X1 -> X2) and X2 contains 'guarded back reference followed by a common rule'"""
+    def with_fwd(i):
+        return [b for b in rule_bodies(i, 3, "small") if b[0] == "alt" and ("ref", "X%d" % (i + 1)) in b[1]]
+
+    def with_back(b):
+        return any(x[0] == "seq" and len(x[1]) == 4 for x in refpeg.walk(b))
+    return [with_fwd(0), with_fwd(1), [b for b in rule_bodies(2, 3, "small") if with_back(b)]]
+
+
+def grammars(n, tier, bodies_per_rule=None):
+    for bodies in itertools.product(*(bodies_per_rule or [list(rule_bodies(i, n, tier)) for i in range(n)])):
         rules = [("X%d" % i, {}, b) for i, b in enumerate(bodies)]
         # every Xi must be reachable from X0
         reach, todo = {"X0"}, ["X0"]
@@ -195,10 +219,12 @@ def run(ctx):
     c01.selfcheck()
     units = []
     counts = {}
-    plan = [(1, 3, 200), (2, 3, 120)] if ctx.tier == "quick" else [(1, 4, 400), (2, 3, 200), (3, 2, 60)]
+    plan = [(1, 3, 200), (2, 3, 120), (3, 2, 40)] if ctx.tier == "quick" else [(1, 4, 400), (2, 3, 200), (3, 2, 60)]
     for n, L_, cap in plan:
-        if n == 3:
-            gs = list(grammars(3, "quick"))
+        if n == 3 and ctx.tier == "quick":
+            gs = list(grammars(3, "small", chain_slice()))
+        elif n == 3:
+            gs = list(grammars(3, "small"))
         else:
             gs = list(grammars(n, ctx.tier))
         counts[n] = len(gs)
@@ -211,7 +237,8 @@ def run(ctx):
                 "non-trivial = reference accepts / grammar has an abstract rule" % (plan,),
         "exhaustive": True, "grammars_per_n": counts,
     }, ["inheritance reference: an abstract rule stands for the first non-match rule reference of each alternative (recursively through abstract rules)",
-        "n=3 uses the quick item alphabet in both tiers"]
+        "quick: n=3 is restricted to the chain slice (X0 and X1 two-way choices with the forward reference, X2 with a guarded back reference followed by a common rule)",
+        "n=3 uses the reduced item alphabet (quick leaves, no 'X rule followed by a common rule' items)"]
 
 
 def replay(p):
